@@ -50,47 +50,103 @@ struct Inst {
     b: BigInt,
 }
 
-fn expr(op: &COp, a: &str, b: &str) -> String {
-    op.expr.replace("$a", a).replace("$b", b)
+/// One expression form with concrete operand and result types.
+struct Form {
+    name: String,
+    expr: String,
+    ta: String,
+    tb: String,
+    ret: String,
+    unary: bool,
+    /// also evaluated as a `const` item (the const evaluator of semantic analysis)
+    const_twin: bool,
+    /// items the expression needs (use declarations, helper impls)
+    prelude: &'static str,
+    /// operand domain of `b` when it is not the domain of its type
+    dom_b: &'static str,
 }
 
+impl Form {
+    fn of_op(op: &COp, t: &Ty) -> Form {
+        let r = if op.ret == "T" { t.name } else { op.ret };
+        Form { name: op.name.into(), expr: op.expr.into(), ta: t.name.into(), tb: t.name.into(), ret: r.into(), unary: op.unary, const_twin: true, prelude: "", dom_b: "" }
+    }
+}
+
+fn expr(f: &Form, a: &str, b: &str) -> String {
+    f.expr.replace("$a", a).replace("$b", b)
+}
+
+/// Literal text of a value of type `t` (felt252 values are written canonically, in [0, P)).
+fn lit(t: &str, v: &BigInt) -> String {
+    if t == "felt252" { crate::c06::to_felt(v).to_bigint().to_string() } else { v.to_string() }
+}
+
+const FOLD_PRELUDE: &str = "#[feature(\"bounded-int-utils\")]
+use core::internal::bounded_int::{self, BoundedInt, AddHelper, SubHelper, MulHelper, DivRemHelper};
+use core::internal::OptionRev;
+use core::num::traits::{CheckedAdd, CheckedSub, CheckedMul, WrappingAdd, WrappingSub, WrappingMul, OverflowingAdd, OverflowingSub, OverflowingMul, SaturatingAdd, SaturatingSub, SaturatingMul, WideMul, Zero};
+impl AddU8I8 of AddHelper<u8, i8> { type Result = BoundedInt<-128, 382>; }
+impl SubU8I8 of SubHelper<u8, i8> { type Result = BoundedInt<-127, 383>; }
+impl MulU8I8 of MulHelper<u8, i8> { type Result = BoundedInt<-32640, 32385>; }
+impl DivRemU8 of DivRemHelper<u8, u8> { type DivT = BoundedInt<0, 255>; type RemT = BoundedInt<0, 254>; }
+";
+
 /// Module text for one batch. Returns (text, line number of each C const).
-fn module(t: &str, r: &str, op: &COp, shape: &str, insts: &[Inst], skip_consts: &BTreeSet<usize>) -> (String, Vec<usize>) {
+fn module(f: &Form, shape: &str, insts: &[Inst], skip_consts: &BTreeSet<usize>) -> (String, Vec<usize>) {
+    let (ta, tb, r) = (f.ta.as_str(), f.tb.as_str(), f.ret.as_str());
     let mut s = String::new();
     let mut lines = vec![];
     let mut line = 1usize;
     let mut push = |s: &mut String, l: String| {
+        let n = l.matches('\n').count() + 1;
         s.push_str(&l);
         s.push('\n');
-        line += 1;
+        line += n;
         line - 1
     };
-    push(&mut s, format!("#[derive(Copy, Drop)] struct P {{ x: {t}, y: {t} }}"));
-    push(&mut s, format!("const fn g(a: {t}, b: {t}) -> {r} {{ {} }}", expr(op, "a", "b")));
-    push(&mut s, format!("const fn h(a: {t}, b: {t}) -> {r} {{ g(a, b) }}"));
-    push(&mut s, format!("fn rt(a: {t}, b: {t}) -> {r} {{ {} }}", expr(op, "a", "b")));
+    if !f.prelude.is_empty() {
+        push(&mut s, f.prelude.trim_end().to_string());
+    }
+    push(&mut s, format!("#[derive(Copy, Drop)] struct P {{ x: {ta}, y: {tb} }}"));
+    if f.const_twin {
+        push(&mut s, format!("const fn g(a: {ta}, b: {tb}) -> {r} {{ {} }}", expr(f, "a", "b")));
+        push(&mut s, format!("const fn h(a: {ta}, b: {tb}) -> {r} {{ g(a, b) }}"));
+    }
+    push(&mut s, format!("fn rt(a: {ta}, b: {tb}) -> {r} {{ {} }}", expr(f, "a", "b")));
     for (k, i) in insts.iter().enumerate() {
-        push(&mut s, format!("const A{k}: {t} = {};", i.a));
-        push(&mut s, format!("const B{k}: {t} = {};", i.b));
-        let c = match shape {
-            "direct" => expr(op, &format!("A{k}"), &format!("B{k}")),
-            "via-struct" => {
-                push(&mut s, format!("const S{k}: P = P {{ x: A{k}, y: B{k} }};"));
-                expr(op, &format!("S{k}.x"), &format!("S{k}.y"))
+        let (la, lb) = (lit(ta, &i.a), lit(tb, &i.b));
+        if f.const_twin {
+            push(&mut s, format!("const A{k}: {ta} = {la};"));
+            push(&mut s, format!("const B{k}: {tb} = {lb};"));
+            let c = match shape {
+                "direct" => expr(f, &format!("A{k}"), &format!("B{k}")),
+                "via-struct" => {
+                    push(&mut s, format!("const S{k}: P = P {{ x: A{k}, y: B{k} }};"));
+                    expr(f, &format!("S{k}.x"), &format!("S{k}.y"))
+                }
+                "via-const-fn" => format!("g(A{k}, B{k})"),
+                "via-const-fn2" => format!("h(A{k}, B{k})"),
+                "via-match-tuple" => format!("match (A{k}, B{k}) {{ (p, q) => {} }}", expr(f, "p", "q")),
+                _ => format!("{{ let p = A{k}; let q = B{k}; {} }}", expr(f, "p", "q")),
+            };
+            if skip_consts.contains(&k) {
+                lines.push(0);
+            } else {
+                let l = push(&mut s, format!("const C{k}: {r} = {c};"));
+                lines.push(l);
+                push(&mut s, format!("fn k{k}() -> {r} {{ C{k} }}"));
             }
-            "via-const-fn" => format!("g(A{k}, B{k})"),
-            "via-const-fn2" => format!("h(A{k}, B{k})"),
-            "via-match-tuple" => format!("match (A{k}, B{k}) {{ (p, q) => {} }}", expr(op, "p", "q")),
-            _ => format!("{{ let p = A{k}; let q = B{k}; {} }}", expr(op, "p", "q")),
-        };
-        if skip_consts.contains(&k) {
-            lines.push(0);
         } else {
-            let l = push(&mut s, format!("const C{k}: {r} = {c};"));
-            lines.push(l);
-            push(&mut s, format!("fn k{k}() -> {r} {{ C{k} }}"));
+            lines.push(0);
         }
-        push(&mut s, format!("fn fold{k}() -> {r} {{ let a: {t} = {}; let b: {t} = {}; {} }}", i.a, i.b, expr(op, "a", "b")));
+        push(&mut s, format!("fn fold{k}() -> {r} {{ let a: {ta} = {la}; let b: {tb} = {lb}; {} }}", expr(f, "a", "b")));
+        // one operand a compile-time constant, the other opaque: the identity / absorbing-element
+        // simplifications of the folder (x+0, x*1, 0*x, 0/x, x/1 ...) and partial knowledge
+        if !f.unary && shape == "direct" {
+            push(&mut s, format!("fn hl{k}(b: {tb}) -> {r} {{ let a: {ta} = {la}; {} }}", expr(f, "a", "b")));
+            push(&mut s, format!("fn hr{k}(a: {ta}) -> {r} {{ let b: {tb} = {lb}; {} }}", expr(f, "a", "b")));
+        }
     }
     (s, lines)
 }
@@ -123,13 +179,12 @@ fn run_fn(c: &Compiled, name: &str, args: &[BigInt]) -> Option<RunResultValue> {
     }
 }
 
-fn check_batch(ctx: &mut Ctx, dbs: &mut Dbs, t: &Ty, op: &COp, shape: &str, insts: &[Inst]) {
-    let r = if op.ret == "T" { t.name } else { op.ret };
+fn check_batch(ctx: &mut Ctx, dbs: &mut Dbs, f: &Form, shape: &str, insts: &[Inst]) {
     let cfg = Cfg::DEFAULT;
     let nofold = Cfg { skip_const_folding: true, ..Cfg::DEFAULT };
-    let case = |k: usize, what: &str| json!({"type": t.name, "op": op.name, "shape": shape, "a": insts[k].a.to_string(), "b": insts[k].b.to_string(), "expr": expr(op, "A", "B"), "what": what});
+    let case = |k: usize, what: &str| json!({"type": f.ta, "type_b": f.tb, "op": f.name, "shape": shape, "a": insts[k].a.to_string(), "b": insts[k].b.to_string(), "expr": expr(f, "A", "B"), "what": what});
     // pass 1: all consts; collect which fail and how
-    let (text, lines) = module(t.name, r, op, shape, insts, &BTreeSet::new());
+    let (text, lines) = module(f, shape, insts, &BTreeSet::new());
     let diag = match dbs.compile(&cfg, &text) {
         Ok(_) => String::new(),
         Err(d) => d,
@@ -146,19 +201,19 @@ fn check_batch(ctx: &mut Ctx, dbs: &mut Dbs, t: &Ty, op: &COp, shape: &str, inst
             None => {
                 // an error that is not on a C-const line: the generated program itself is ill-formed
                 ctx.count("batches_with_foreign_diagnostics", 1);
-                ctx.note(format!("{}::{} {shape}: error {code} on line {line} (not a generated const)", t.name, op.name));
+                ctx.note(format!("{}::{} {shape}: error {code} on line {line} (not a generated const)", f.ta, f.name));
                 return;
             }
         }
     }
     // pass 2: without the failing consts; must compile
     let skip: BTreeSet<usize> = failed.keys().copied().collect();
-    let (text2, _) = module(t.name, r, op, shape, insts, &skip);
+    let (text2, _) = module(f, shape, insts, &skip);
     let prog = match dbs.compile(&cfg, &text2) {
         Ok(p) => p,
         Err(e) => {
             ctx.count("batches_not_compiling_after_removal", 1);
-            ctx.note(format!("{}::{} {shape}: {}", t.name, op.name, e.chars().take(200).collect::<String>()));
+            ctx.note(format!("{}::{} {shape}: {}", f.ta, f.name, e.chars().take(200).collect::<String>()));
             return;
         }
     };
@@ -169,13 +224,23 @@ fn check_batch(ctx: &mut Ctx, dbs: &mut Dbs, t: &Ty, op: &COp, shape: &str, inst
             continue;
         }
         ctx.count("evaluations", 1);
-        ctx.distinct(&(t.name, op.name, shape, i.a.to_string(), i.b.to_string()));
+        ctx.distinct(&(f.ta.as_str(), f.tb.as_str(), f.name.as_str(), shape, i.a.to_string(), i.b.to_string()));
         let Some(rt) = guarded(|| run_fn(&c, "rt", &[i.a.clone(), i.b.clone()])).ok().flatten() else {
             ctx.count("rt_run_failed", 1);
             continue;
         };
         let rt_panics = matches!(rt, RunResultValue::Panic(_));
+        // the opaque-argument twin itself is subject to type-directed folding: bind it to the build without folding
+        if let Some(cc) = c_nofold.as_ref() {
+            if let Some(v) = guarded(|| run_fn(cc, "rt", &[i.a.clone(), i.b.clone()])).ok().flatten() {
+                ctx.count("rt_comparisons", 1);
+                if v != rt {
+                    ctx.violation(format!("runtime-twin-differs-without-folding:{}", f.name), format!("opaque-argument function = {} with const folding but {} without", value_json(&rt), value_json(&v)), case(k, "rt-fold-vs-nofold"));
+                }
+            }
+        }
         match failed.get(&k) {
+            _ if !f.const_twin => {}
             Some(code) if code == "E2127" => {
                 ctx.count("unsupported_constant_not_judged", 1);
             }
@@ -185,7 +250,7 @@ fn check_batch(ctx: &mut Ctx, dbs: &mut Dbs, t: &Ty, op: &COp, shape: &str, inst
                     ctx.violation(format!("unexpected-diagnostic:{code}"), format!("const item gets diagnostic {code}, which is not an evaluation failure"), case(k, "diagnostic"));
                 } else if !rt_panics {
                     ctx.violation(
-                        format!("compile-time-failure-but-runtime-value:{}", op.name),
+                        format!("compile-time-failure-but-runtime-value:{}", f.name),
                         format!("the const item fails to evaluate ({code}) but the same expression evaluates to {} at run time", value_json(&rt)),
                         case(k, "const-vs-runtime"),
                     );
@@ -198,12 +263,12 @@ fn check_batch(ctx: &mut Ctx, dbs: &mut Dbs, t: &Ty, op: &COp, shape: &str, inst
                     Some(kv) => {
                         if rt_panics {
                             ctx.violation(
-                                format!("compile-time-value-but-runtime-panic:{}", op.name),
+                                format!("compile-time-value-but-runtime-panic:{}", f.name),
                                 format!("the const item silently evaluates to {} but the same expression panics at run time with {}", value_json(&kv), value_json(&rt)),
                                 case(k, "const-vs-runtime"),
                             );
                         } else if kv != rt {
-                            ctx.violation(format!("const-value-differs:{}", op.name), format!("const = {} but run time = {}", value_json(&kv), value_json(&rt)), case(k, "const-vs-runtime"));
+                            ctx.violation(format!("const-value-differs:{}", f.name), format!("const = {} but run time = {}", value_json(&kv), value_json(&rt)), case(k, "const-vs-runtime"));
                         }
                     }
                 }
@@ -217,15 +282,172 @@ fn check_batch(ctx: &mut Ctx, dbs: &mut Dbs, t: &Ty, op: &COp, shape: &str, inst
                 Some(fv) => {
                     ctx.count("fold_comparisons", 1);
                     if fv != rt {
-                        ctx.violation(format!("folded-twin-differs:{label}:{}", op.name), format!("literal-operand function ({label}) = {} but opaque-argument function = {}", value_json(&fv), value_json(&rt)), case(k, "fold-vs-runtime"));
+                        ctx.violation(format!("folded-twin-differs:{label}:{}", f.name), format!("literal-operand function ({label}) = {} but opaque-argument function = {}", value_json(&fv), value_json(&rt)), case(k, "fold-vs-runtime"));
+                    }
+                }
+            }
+            if f.unary || shape != "direct" {
+                continue;
+            }
+            for (side, fname_, arg) in [("left-const", format!("hl{k}"), &i.b), ("right-const", format!("hr{k}"), &i.a)] {
+                match guarded(|| run_fn(cc, &fname_, std::slice::from_ref(arg))).ok().flatten() {
+                    None => ctx.count("half_fold_run_failed", 1),
+                    Some(fv) => {
+                        ctx.count("half_fold_comparisons", 1);
+                        if fv != rt {
+                            ctx.violation(format!("half-folded-twin-differs:{side}:{label}:{}", f.name), format!("function with the {side} operand literal ({label}) = {} but opaque-argument function = {}", value_json(&fv), value_json(&rt)), case(k, "half-fold-vs-runtime"));
+                        }
                     }
                 }
             }
         }
     }
     if !insts.is_empty() {
-        ctx.sample(|| json!({"type": t.name, "op": op.name, "shape": shape, "first_instance": case(0, "sample"), "consts_failing": failed.len(), "instances": insts.len()}));
+        ctx.sample(|| json!({"type": f.ta, "op": f.name, "shape": shape, "first_instance": case(0, "sample"), "consts_failing": failed.len(), "instances": insts.len()}));
     }
+}
+
+fn ty(name: &str) -> Option<&'static Ty> {
+    TYPES.iter().find(|t| t.name == name)
+}
+
+fn prime() -> BigInt {
+    (BigInt::from(1) << 251) + (BigInt::from(17) << 192) + 1
+}
+
+/// Operand domain of a type by name.
+fn domain(name: &str, tier: Tier, exhaustive: bool) -> Vec<BigInt> {
+    if let Some(t) = ty(name) {
+        return if exhaustive { t.all() } else if tier == Tier::Quick && t.bits > 8 { small_boundary(t) } else { t.boundary() };
+    }
+    match name {
+        // array index
+        "idx" => [0u64, 1, 2, 3, u32::MAX as u64].iter().map(|v| BigInt::from(*v)).collect(),
+        _ => {
+            // felt252: 0, 1, 2, the integer type boundaries and their neighbours (also as negatives), 2^251, (P±1)/2, P-2, P-1
+            let p = prime();
+            let mut v: Vec<BigInt> = vec![];
+            for k in [0u32, 7, 8, 15, 16, 31, 32, 63, 64, 127, 128, 251] {
+                let x = BigInt::from(1) << k;
+                for d in [-1i32, 0, 1] {
+                    v.push(&x + d);
+                    v.push(-(&x + d));
+                }
+            }
+            v.extend([BigInt::from(0), BigInt::from(2), BigInt::from(3), (&p - 1) / 2, (&p + 1) / 2, &p - 2]);
+            let mut v: Vec<BigInt> = v.into_iter().map(|x| ((x % &p) + &p) % &p).collect();
+            v.sort();
+            v.dedup();
+            if tier == Tier::Quick {
+                v.retain(|x| {
+                    let y = if *x > &p / 2 { &p - x } else { x.clone() };
+                    y.bits() <= 9 || y.bits() >= 127
+                });
+            }
+            v
+        }
+    }
+}
+
+const WIDE: &[(&str, &str)] = &[("u8", "u16"), ("u16", "u32"), ("u32", "u64"), ("u64", "u128"), ("u128", "u256"), ("i8", "i16"), ("i16", "i32"), ("i32", "i64"), ("i64", "i128")];
+
+/// The forms that reach the constant folder of lowering (not the const evaluator): one per kind of
+/// statement `const_folding.rs` rewrites.
+fn folder_forms(types: &[&Ty], tier: Tier) -> Vec<Form> {
+    let mut v = vec![];
+    let mut add = |name: String, ta: &str, tb: &str, ret: String, e: String, unary: bool| {
+        v.push(Form { name, expr: e, ta: ta.into(), tb: tb.into(), ret, unary, const_twin: false, prelude: FOLD_PRELUDE, dom_b: "" });
+    };
+    for t in types {
+        let n = t.name;
+        for op in ["add", "sub", "mul"] {
+            // checked_mul / overflowing_mul / saturating_mul / wrapping_mul exist for unsigned types only
+            if op == "mul" && t.signed {
+                continue;
+            }
+            add(format!("checked_{op}"), n, n, format!("Option<{n}>"), format!("$a.checked_{op}($b)"), false);
+            add(format!("wrapping_{op}"), n, n, n.into(), format!("$a.wrapping_{op}($b)"), false);
+            add(format!("overflowing_{op}"), n, n, format!("({n}, bool)"), format!("$a.overflowing_{op}($b)"), false);
+            add(format!("saturating_{op}"), n, n, n.into(), format!("$a.saturating_{op}($b)"), false);
+        }
+        if let Some((_, w)) = WIDE.iter().find(|(s, _)| *s == n) {
+            add("wide_mul".into(), n, n, w.to_string(), "$a.wide_mul($b)".into(), false);
+        }
+        add("is_zero".into(), n, n, "bool".into(), "core::num::traits::Zero::is_zero(@$a)".into(), true);
+        add("nonzero".into(), n, n, "bool".into(), format!("{{ let r: Option<NonZero<{n}>> = $a.try_into(); r.is_some() }}"), true);
+        add("array_len".into(), n, n, "u32".into(), "{ let arr = array![$a, $b, $a]; arr.len() }".into(), false);
+        add("array_at".into(), n, "u32", n.into(), "{ let arr = array![$a, 7, 9]; *arr.at($b) }".into(), false);
+        add("span_pop_front".into(), n, n, n.into(), "{ let mut s = array![$a, $b].span(); let _ = s.pop_front(); match s.pop_front() { Some(v) => *v, None => 77 } }".into(), false);
+        add("span_pop_back".into(), n, n, n.into(), "{ let mut s = array![$a, $b].span(); match s.pop_back() { Some(v) => *v, None => 77 } }".into(), false);
+        add("array_pop_front".into(), n, n, n.into(), "{ let mut arr = array![$a, $b]; match arr.pop_front() { Some(v) => v, None => 77 } }".into(), false);
+        add("array_empty_pop_front".into(), n, n, n.into(), format!("{{ let mut arr: Array<{n}> = array![]; match arr.pop_front() {{ Some(v) => v, None => $a }} }}"), true);
+        add("span_empty_pop".into(), n, n, n.into(), format!("{{ let mut s: Span<{n}> = array![].span(); match s.pop_front() {{ Some(v) => *v, None => match s.pop_back() {{ Some(v) => *v, None => $a }} }} }}"), true);
+        add("span_exhaust".into(), n, n, n.into(), "{ let mut s = array![$a, $b].span(); let _ = s.pop_front(); let _ = s.pop_back(); match s.pop_front() { Some(v) => *v, None => match s.pop_back() { Some(v) => *v, None => 55 } } }".into(), false);
+        add("array_get_empty".into(), n, n, n.into(), format!("{{ let arr: Array<{n}> = array![]; match arr.get(0) {{ Some(v) => *v.unbox(), None => $a }} }}"), true);
+        add("known_enum".into(), n, n, n.into(), "{ let o = Option::Some($a); match o { Some(x) => x, None => $b } }".into(), false);
+        add("known_struct".into(), n, n, n.into(), "{ let p = P { x: $a, y: $b }; let P { x: _, y } = p; y }".into(), false);
+        add("box".into(), n, n, n.into(), "BoxTrait::new($a).unbox()".into(), true);
+        add("nullable".into(), n, n, n.into(), format!("{{ let v: Nullable<{n}> = NullableTrait::new($a); v.deref() }}"), true);
+        add("snapshot".into(), n, n, n.into(), "{ let s = @$a; *s }".into(), true);
+        add("match_value".into(), n, n, n.into(), "match $a { 0 => $b, 1 => 5, _ => $a }".into(), false);
+        add("eq_chain".into(), n, n, "bool".into(), "($a == $b) ^ ($a != $b) ^ ($a == 0) ^ ($b == 1)".into(), false);
+        // conversions to every other integer type and to felt252
+        for u in TYPES {
+            if u.name != n && (tier == Tier::Thorough || types.iter().any(|x| x.name == u.name)) {
+                add(format!("try_into_{}", u.name), n, n, format!("Option<{}>", u.name), format!("{{ let r: Option<{}> = $a.try_into(); r }}", u.name), true);
+            }
+        }
+        add("from_felt252".into(), "felt252", "felt252", format!("Option<{n}>"), format!("{{ let r: Option<{n}> = $a.try_into(); r }}"), true);
+    }
+    for (op, e) in [("felt_add", "$a + $b"), ("felt_sub", "$a - $b"), ("felt_mul", "$a * $b"), ("felt_div", "felt252_div($a, $b.try_into().unwrap())"), ("felt_mixed", "($a - $b) * $a + $b * 3 - $a"), ("felt_is_zero", "{ if $a - $b == 0 { 1 } else { $a } }"), ("felt_match", "match $a { 0 => $b, _ => $a }")] {
+        add(op.into(), "felt252", "felt252", "felt252".into(), e.into(), false);
+    }
+    for (op, e) in [("u256_add", "u256 { low: $a, high: $b } + u256 { low: $b, high: $a }"), ("u256_sub", "u256 { low: $a, high: $b } - u256 { low: $b, high: $a }"), ("u256_mul", "u256 { low: $a, high: 0 } * u256 { low: $b, high: 1 }"), ("u256_wide", "u256 { low: $a, high: 0 } * u256 { low: $b, high: 0 }")] {
+        add(op.into(), "u128", "u128", "u256".into(), e.into(), false);
+    }
+    add("bounded_add".into(), "u8", "i8", "felt252".into(), "bounded_int::add($a, $b).into()".into(), false);
+    add("bounded_sub".into(), "u8", "i8", "felt252".into(), "bounded_int::sub($a, $b).into()".into(), false);
+    add("bounded_mul".into(), "u8", "i8", "felt252".into(), "bounded_int::mul($a, $b).into()".into(), false);
+    add(
+        "bounded_div_rem".into(),
+        "u8",
+        "u8",
+        "(felt252, felt252)".into(),
+        "{ let d: Option<NonZero<u8>> = $b.try_into(); match d { Some(nz) => { let (q, r) = bounded_int::div_rem($a, nz); (q.into(), r.into()) }, None => (1000, 1000) } }".into(),
+        false,
+    );
+    for t in types {
+        let n = t.name;
+        add("bounded_trim_min".into(), n, n, "felt252".into(), format!("match bounded_int::trim_min::<{n}>($a) {{ OptionRev::Some(v) => v.into(), OptionRev::None => 999 }}"), true);
+        add("bounded_trim_max".into(), n, n, "felt252".into(), format!("match bounded_int::trim_max::<{n}>($a) {{ OptionRev::Some(v) => v.into(), OptionRev::None => 999 }}"), true);
+        if t.signed {
+            add("bounded_constrain0".into(), n, n, "felt252".into(), format!("match bounded_int::constrain::<{n}, 0>($a) {{ Ok(l) => l.into() - 1000, Err(h) => h.into() + 1000 }}"), true);
+        }
+    }
+    for f in &mut v {
+        if f.name == "array_at" {
+            f.dom_b = "idx";
+        }
+    }
+    v
+}
+
+fn instances(f: &Form, tier: Tier, exhaustive: bool) -> Vec<Inst> {
+    let da = domain(&f.ta, tier, exhaustive);
+    let mut insts = vec![];
+    if f.unary {
+        for a in &da {
+            insts.push(Inst { a: a.clone(), b: BigInt::from(1) });
+        }
+    } else {
+        let db = domain(if f.dom_b.is_empty() { &f.tb } else { f.dom_b }, tier, exhaustive);
+        for a in &da {
+            for b in &db {
+                insts.push(Inst { a: a.clone(), b: b.clone() });
+            }
+        }
+    }
+    insts
 }
 
 fn run_all(ctx: &mut Ctx) {
@@ -235,37 +457,41 @@ fn run_all(ctx: &mut Ctx) {
         Tier::Quick => TYPES.iter().filter(|t| ["u8", "i8", "u32", "u128", "i128"].contains(&t.name)).collect(),
         Tier::Thorough => TYPES.iter().collect(),
     };
-    for t in types {
+    for t in &types {
         for op in OPS {
             if (op.unsigned_only && t.signed) || (op.signed_only && !t.signed) {
                 continue;
             }
+            let f = Form::of_op(op, t);
             let shapes: &[&str] = if tier == Tier::Thorough || ["add", "div", "mixed", "andand", "neg"].contains(&op.name) { SHAPES } else { &SHAPES[..1] };
             for shape in shapes {
                 let exhaustive = tier == Tier::Thorough && t.bits == 8 && *shape == "direct" && ["add", "sub", "mul", "div", "rem", "neg"].contains(&op.name);
-                let dom: Vec<BigInt> = if exhaustive { t.all() } else if tier == Tier::Quick && t.bits > 8 { small_boundary(t) } else { t.boundary() };
-                let mut insts = vec![];
-                if op.unary {
-                    for a in &dom {
-                        insts.push(Inst { a: a.clone(), b: BigInt::from(1) });
-                    }
-                } else {
-                    for a in &dom {
-                        for b in &dom {
-                            insts.push(Inst { a: a.clone(), b: b.clone() });
-                        }
-                    }
-                }
+                let insts = instances(&f, tier, exhaustive);
                 for (bi, batch) in insts.chunks(120).enumerate() {
                     ctx.case(
                         || json!({"space":"const-vs-runtime","type":t.name,"op":op.name,"shape":shape,"batch":bi}),
                         |ctx| {
                             ctx.count("batches", 1);
-                            check_batch(ctx, &mut dbs, t, op, shape, batch)
+                            check_batch(ctx, &mut dbs, &f, shape, batch)
                         },
                     );
                 }
             }
+        }
+    }
+    for f in folder_forms(&types, tier) {
+        let exhaustive = tier == Tier::Thorough
+            && ty(&f.ta).is_some_and(|t| t.bits == 8)
+            && (f.unary || ["overflowing_add", "overflowing_sub", "wrapping_mul", "saturating_sub", "checked_add"].contains(&f.name.as_str()));
+        let insts = instances(&f, tier, exhaustive);
+        for (bi, batch) in insts.chunks(120).enumerate() {
+            ctx.case(
+                || json!({"space":"folder","type":f.ta,"type_b":f.tb,"op":f.name,"batch":bi}),
+                |ctx| {
+                    ctx.count("folder_batches", 1);
+                    check_batch(ctx, &mut dbs, &f, "direct", batch)
+                },
+            );
         }
     }
 }
